@@ -22,6 +22,8 @@ INIT_ATTRS = ["eo", "xincl", "xno", "bstar", "omegao", "xmo", "xnodeo", "xn_0", 
 KEP_ATTRS = ["_ts", "_xmp", "_xnode", "omega", "_tempe", "_templ", "_a", "_axn", "_ayn", "_elsq", "ecc", "_xlt",
              "_sinEPW", "_cosEPW", "_ecosE", "_esinE", "_betal", "_pl", "_r", "_invR", "_u", "_sin2u", "_cos2u",
              "rk", "uk", "xnodek", "xinc", "rdotk", "rfdotk"]
+FIN_ATTRS = ["_sinEPW", "_cosEPW", "_ecosE", "_esinE", "_r", "_invR", "_u", "_sin2u", "_cos2u",
+             "rk", "uk", "xnodek", "xinc", "rdotk", "rfdotk"]
 KEP_OUT = ["ecc", "radius", "theta", "eqinc", "ascn", "argp", "smjaxs", "rdotk", "rfdotk"]
 
 
@@ -144,6 +146,28 @@ def trace(repo="/repo"):
                 return kep, holder[-1]
             tr.fuel = 40
             res["prop"][pi] = (mode, st.run_paths(tr, prop))
+        # the finishing map as a function of the eccentric-anomaly argument: the same code, run with
+        # np.fmod (which produces the Newton start value) returning a fresh input Ew, on the path
+        # that leaves the Newton loop at its first test
+        Ew = st.new_input(tr, "Ew")
+        res["fin"] = {}
+        ld.np.fmod = lambda x, m: Ew
+        try:
+            for pi, p in enumerate(paths):
+                if p.outcome != "ok" or res["modes"][p.value[1]._params.mode] != "NEAR_NORM":
+                    continue
+                sg = p.value[1]
+
+                def prop2():
+                    del holder[:]
+                    kep = sg.propagate(t)
+                    return kep, holder[-1]
+                tr.fuel = 40
+                cands = [q for q in st.run_paths(tr, prop2) if q.outcome == "ok"]
+                cands.sort(key=lambda q: len(q.conds))
+                res["fin"][pi] = cands[0]
+        finally:
+            del ld.np.fmod
     finally:
         orb._Keplerians = orig
     return tr, res
@@ -160,7 +184,12 @@ def generate(outpath, repo="/repo"):
         nonlocal text
         text += emit.definition(g, name, ins, node, known=known) + "\n"
         if g.nodes[node][0] not in ("const", "in", "pi"):
-            known.setdefault(node, "(%s %s)" % (name, " ".join(ins)))
+            uses_ew = True
+            if "Ew" in ins:
+                nodes, _uses = emit.cone(g, [node])
+                uses_ew = any(g.nodes[i] == ("in", "Ew") for i in nodes)
+            if uses_ew:
+                known.setdefault(node, "(%s %s)" % (name, " ".join(ins)))
         defs.append((name, list(ins), node))
 
     def lift(x):
@@ -226,12 +255,26 @@ def generate(outpath, repo="/repo"):
             refusals.setdefault(mode, set()).update(outs)
     # ---- propagation: decision tree + named quantities per near-earth-normal leaf
     prop_summary = []
+    compose = []
+    prop_info = {}
     nn_index = {id(p): li for li, p in enumerate(nn_leaves)}
     for pi, (mode, pp) in res["prop"].items():
         if mode != "NEAR_NORM" or id(paths[pi]) not in nn_index:
             continue
         li = nn_index[id(paths[pi])]
         okp = [q for q in pp if q.outcome == "ok"]
+        # the Newton iterates: arguments of the sines kept in _sinEPW
+        epw_names = {}
+        for q in okp:
+            n = lift(q.value[1]._sinEPW)
+            if g.nodes[n][0] != "sin":
+                _unsupported("_sinEPW is not a sine")
+            arg = g.nodes[n][1]
+            if arg not in epw_names:
+                nm = "gen_nn%d_epw_x%d" % (li, len(epw_names))
+                epw_names[arg] = nm
+                if arg not in known:
+                    add(nm, PROP_IN, arg)
         # named intermediate quantities
         for a in KEP_ATTRS:
             seen = []
@@ -246,6 +289,16 @@ def generate(outpath, repo="/repo"):
                 if n in known or g.nodes[n][0] in ("const", "in", "pi"):
                     continue
                 add("gen_nn%d_%s%s" % (li, a.lstrip("_"), "" if len(seen) == 1 else "_x%d" % k2), PROP_IN, n)
+        # the finishing map as a function of Ew
+        fq = res["fin"][pi]
+        fin_names = {}
+        for a in FIN_ATTRS:
+            n = lift(getattr(fq.value[1], a))
+            nm = "gen_nn%d_fin_%s" % (li, a.lstrip("_"))
+            add(nm, PROP_IN + ["Ew"], n)
+            fin_names[a] = nm
+        for kname in KEP_OUT:
+            add("gen_nn%d_fin_out_%s" % (li, kname), PROP_IN + ["Ew"], lift(fq.value[0][kname]))
         exits = []
 
         def prop_leaf(q, exits=exits, li=li):
@@ -261,18 +314,39 @@ def generate(outpath, repo="/repo"):
                         add("gen_nn%d_guard%d" % (li, kk), PROP_IN, n)
                         kk += 1
         ptree = build_tree([(q.conds, q) for q in pp], prop_leaf)
+        prop_info[li] = {"tree": ptree, "exits": [{kname: lift(q.value[0][kname]) for kname in KEP_OUT} for q in exits]}
         text += "Definition gen_nn%d_prop_outcome (%s : R) : prop_outcome :=\n  %s.\n\n" % (li, " ".join(PROP_IN), tree_text(g, ptree, known, "  "))
         for j, q in enumerate(exits):
             for kname in KEP_OUT:
                 add("gen_nn%d_x%d_%s" % (li, j, kname), PROP_IN, lift(q.value[0][kname]))
+        # generated composition lemmas (checked by conversion): every exit's quantities are the
+        # finishing map applied to that exit's Newton iterate
+        name_of = {n: nm for nm, _ins, n in defs}
+        B = " ".join(PROP_IN)
+        for j, q in enumerate(exits):
+            epw = epw_names[g.nodes[lift(q.value[1]._sinEPW)][1]]
+            for a in FIN_ATTRS:
+                n = lift(getattr(q.value[1], a))
+                lhs = name_of.get(n)
+                if lhs is None or lhs.startswith("gen_nn%d_fin_" % li):
+                    continue
+                compose.append("Lemma compose_nn%d_x%d_%s (%s : R) :\n  %s %s = %s %s (%s %s).\nProof. reflexivity. Qed.\n"
+                               % (li, j, a.lstrip("_"), B, lhs, B, fin_names[a], B, epw, B))
+            for kname in KEP_OUT:
+                compose.append("Lemma compose_nn%d_x%d_out_%s (%s : R) :\n  gen_nn%d_x%d_%s %s = gen_nn%d_fin_out_%s %s (%s %s).\nProof. reflexivity. Qed.\n"
+                               % (li, j, kname, B, li, j, kname, B, li, kname, B, epw, B))
         prop_summary.append({"leaf": li, "paths": len(pp), "ok_exits": len(exits), "outcomes": sorted(set(q.outcome for q in pp))})
     summary = {"init_paths": len(paths), "init_outcomes": sorted(set(p.outcome for p in paths)),
                "near_norm_leaves": len(nn_leaves), "leaf_variants": leaf_variant,
                "other_modes_propagate": {m: sorted(s) for m, s in refusals.items()}, "prop": prop_summary}
     text += "(* summary: %s *)\n" % json.dumps(summary)
     write_if_changed(outpath, text)
+    ctext = ("(* GENERATED composition lemmas for Gen_sgp4.v (each checked by conversion). *)\n"
+             "From Coq Require Import Reals.\nFrom PyOrb.lib Require Import PyReal SgpOutcome.\n"
+             "From PyOrb.gen Require Import Gen_sgp4.\nOpen Scope R_scope.\n\n" + "\n".join(compose))
+    write_if_changed(outpath.replace("Gen_sgp4.v", "Gen_sgp4_compose.v"), ctext)
     tr.summary = summary
-    tr.trees = {"init": tree}
+    tr.trees = {"init": tree, "prop": prop_info}
     tr.res = res
     tr.nn_leaves = nn_leaves
     return tr, defs
